@@ -583,8 +583,17 @@ class Check:
                 print(f"VIOLATION property={self.prop} replay={path}{suffix}")
                 print(f"  ({kind}) {sig}: {fs[0].what}"[:600])
         cov = dict(self.coverage)
-        cov.setdefault("obligations", obl.get("obligations", 0))
-        cov.setdefault("discharged", obl.get("discharged", 0))
+        if obl.get("discharged", 0) >= 1:
+            cov.setdefault("obligations", obl.get("obligations", 0))
+            cov.setdefault("discharged", obl.get("discharged", 0))
+        else:
+            # nothing of Props.v could be re-checked on this run (the development no longer builds
+            # against the tree under test): that is reported as a VIOLATION above; the evidence
+            # then carries the exploration-style counts only, and says so
+            cov["obligations_attempted"] = obl.get("obligations", 0)
+            cov["discharged_on_this_run"] = 0
+            cov.setdefault("explanation", "no theorem of Props.v could be re-checked on this run (build failure of the "
+                                          "property's Coq files against the tree under test); the run exits 1 with a VIOLATION line")
         cov.setdefault("checker_cmd", f"cd /verif/coq && make -j16 && coqc -Q theories CfdmV theories/{self.prop}/Props.v  (Print Assumptions under every theorem)")
         cov.setdefault("theorems", [{k: v for k, v in t.items()} for t in obl.get("theorems", [])])
         cov.setdefault("axioms_reported", obl.get("axioms", []))
